@@ -148,6 +148,10 @@ def core_scenarios():
     S.append(("reject_other_topics", "strict", "A:a:10 E:t:1073741825 A:c:20 A:t:5 O R:a R:c R:t R:t"))
     S.append(("sync_fail", "strict+sync", "A:t:100 F:FSYNC:1 E:t:150 A:t:200 R:t R:t R:t O R:t"))
     S.append(("sync_fail_restart", "strict+sync", "A:t:100 F:FSYNC:1 E:t:150 O R:t R:t"))
+    S.append(("batch_reject_span", "strict", "A:t:100 EB:t:6291456,6291456,1073741825 A:t:50 R:t R:t R:t"))
+    S.append(("batch_reject_simple", "strict", "A:t:100 EB:t:10,1073741825 A:t:50 R:t R:t R:t"))
+    S.append(("batch_flush_fail", "strict", "A:t:100 F:FSYNC:1 EB:t:10,20 A:t:50 R:t R:t O R:t"))
+    S.append(("batch_flush_fail_restart", "strict", "A:t:100 F:FSYNC:1 EB:t:10,20 O R:t R:t"))
     S.append(("stateless_alo_cursor", "alo3", "A:t:300 A:t:300 A:t:300 A:t:300 A:t:300 A:t:300 R:t S:t:1048576:1:0 P:t R:t"))
     for n in (3, 5):
         S.append(("alo%d_tail_restart" % n, "alo%d" % n, "%s %s O R:t" % (small(20), " ".join(["R:t"] * 12))))
